@@ -721,7 +721,9 @@ pub(crate) fn output_variant(
     let doc = variant.description.as_ref().map(|s| {
         quote! { #[doc = #s] }
     });
-    let serde = (&variant.raw_name != ident_name).then(|| {
+    // (A non-ASCII name is always given explicitly: the compiler
+    // NFC-normalizes identifiers.)
+    let serde = (&variant.raw_name != ident_name || !variant.raw_name.is_ascii()).then(|| {
         let s = &variant.raw_name;
         quote! { #[serde(rename = #s)] }
     });
